@@ -3,6 +3,7 @@ package rules
 import (
 	"go/token"
 	"go/types"
+	"sort"
 	"strings"
 
 	"golang.org/x/tools/go/ssa"
@@ -144,7 +145,7 @@ func (c *Ctx) c19Server(rel, name string) {
 	}
 	if doneRecv == nil {
 		r.Bad("C19/LISTENER", name+":Start", p.Pos(start.Pos()), "Start does not wait for ctx.Done(): the listener is never closed on shutdown")
-	} else if ret := (&eng.Search{Target: eng.IsReturn, Avoid: isLisClose}).After(doneRecv); ret != nil {
+	} else if ret := (&eng.Search{Target: eng.IsReturnOf(start), Avoid: isLisClose, Deep: true}).After(doneRecv); ret != nil {
 		r.Bad("C19/LISTENER", name+":Start", p.InstrPos(ret), "a path from ctx.Done() to return does not close the listener: new connections are still accepted after shutdown was requested")
 	} else {
 		r.Ok("C19/LISTENER", name+":Start", p.InstrPos(doneRecv), "listener closed on every path after ctx.Done()")
@@ -233,7 +234,7 @@ func (c *Ctx) c19Main() {
 			call, ok := in.(*ssa.Call)
 			return ok && eng.StaticCallee(call.Common()) == w.fn
 		}
-		if ret := (&eng.Search{Target: eng.IsReturn, Avoid: is}).After(startCall); ret != nil {
+		if ret := (&eng.Search{Target: eng.IsReturnOf(mainFn), Avoid: is, Deep: true}).After(startCall); ret != nil {
 			r.Bad("C19/DRAIN", "main:"+w.name, p.InstrPos(ret), "main can return without calling %s after the services were started: the process exits under open sessions", w.name)
 		} else {
 			r.Ok("C19/DRAIN", "main:"+w.name, p.InstrPos(startCall), "every path from services.Start to return calls %s", w.name)
@@ -246,7 +247,7 @@ func (c *Ctx) c19Main() {
 			gos++
 		}
 	})
-	r.Floor("C19/DRAIN", "go statements in Services.Start", gos, 5)
+	r.Floor("C19/DRAIN", "go statements in Services.Start", gos, 1)
 }
 
 func (c *Ctx) c19Hub() {
@@ -309,7 +310,14 @@ func (c *Ctx) retentionCancel(rule string) {
 	}
 	// every blocking op in Start, DoScan and its visitor closure is a select with ctx.Done()
 	nBlock := 0
-	for _, fn := range append(eng.WithAnons(start), eng.WithAnons(scan)...) {
+	var scannerFns []*ssa.Function
+	for fn := range p.SyncReach(start, scan) {
+		if eng.FuncPkgPath(fn) == eng.Mod+"/pkg/storage" {
+			scannerFns = append(scannerFns, fn)
+		}
+	}
+	sort.Slice(scannerFns, func(i, j int) bool { return scannerFns[i].String() < scannerFns[j].String() })
+	for _, fn := range scannerFns {
 		fn := fn
 		eng.EachInstr(fn, func(in ssa.Instruction) {
 			cons := "blocking@" + shortFn(fn)
@@ -367,13 +375,13 @@ func (c *Ctx) retentionCancel(rule string) {
 			}
 		})
 	}
-	r.Floor(rule, "blocking operations in the scanner", nBlock, 2)
+	r.Floor(rule, "blocking operations in the scanner", nBlock, 1)
 	// every exit of Start closes retentionShutdown
 	isClose := func(in ssa.Instruction) bool {
 		call, ok := in.(*ssa.Call)
 		return ok && eng.CalleeName(call.Common()) == "builtin.close" && eng.SameField(eng.LoadedField(call.Call.Args[0]), fShut)
 	}
-	if ret := (&eng.Search{Target: eng.IsReturn, Avoid: isClose}).FromEntry(start); ret != nil {
+	if ret := (&eng.Search{Target: eng.IsReturnOf(start), Avoid: isClose, Deep: true}).FromEntry(start); ret != nil {
 		r.Bad(rule, "close-on-exit", p.InstrPos(ret), "RetentionScanner.Start can return without closing retentionShutdown: Join blocks forever and main never finishes shutdown")
 	} else {
 		r.Ok(rule, "close-on-exit", p.Pos(start.Pos()), "every exit of Start closes retentionShutdown")
